@@ -366,3 +366,8 @@ Proof.
     assert (E2 : nclasses (set_pending (canonicalize s) []) = nclasses (canonicalize s)) by reflexivity.
     lia.
 Qed.
+
+Corollary close_terminates_reachable P A cond s :
+  wf_rules (fp_rules P) -> no_defs P -> Reach P A s ->
+  exec_close_until (iter_bound P s) P cond s <> None.
+Proof. intros Hwf Hnd HR. apply close_terminates; [exact Hwf | exact Hnd | eapply Reach_WF; eauto]. Qed.
